@@ -212,7 +212,7 @@ CLAIMED.update({
              'while it holds proxies, another managed() proxy of the same value, spawn a child with the proxy as argument (kept or '
              'given away), agent exits} across driver + 2 agent processes for a managed list, a shared-memory '
              'MemoryBlock and a managed() return value; canonical state = holder multiset of the reference model (counts '
-             'capped at 2); depth 5 (thorough 7). After every transition: gc in all processes incl. the server, then '
+             'capped at 2); depth 5 (thorough 9). After every transition: gc in all processes incl. the server, then '
              'debug_info refcount == model, every live proxy usable, /dev/shm block exists iff held; finally nothing hosted; when '
              'nothing refers to the value it must be gone before the client sends its next request; a history that makes no '
              'progress for 60 s is a violation. server_races: the real manager Server object (never serving a socket) with '
